@@ -13,6 +13,13 @@ for name in sorted(os.listdir(S)):
     meta = json.load(open(os.path.join(d, "meta.json")))
     res = json.load(open(os.path.join(d, "results.json"))) if os.path.exists(os.path.join(d, "results.json")) else {"checks": {}}
     checks = "; ".join(f"{p}: {r['verdict']}" for p, r in res.get("checks", {}).items()) or "not run"
+    first = res.get("history", [])
+    if first:
+        checks += " — FIRST RUN: " + "; ".join(f"{p}: {v}" for p, v in first[0]["checks"].items())
+    conf = json.load(open(os.path.join(d, "confirm.json"))) if os.path.exists(os.path.join(d, "confirm.json")) else {}
+    ok = conf.get("patch_applies") and conf.get("builds") and conf.get("tests_pass")
+    demo = any(v.get("differs") for v in conf.get("demos", {}).values()) if conf.get("demos") else None
+    checks += f" [confirmed: builds+1099 tests pass={bool(ok)}, demo differs={demo}]"
     rows.append((name, meta.get("property"), meta.get("what_changed", "").replace("\n", " ")[:160],
                  meta.get("needs_to_manifest", "").replace("\n", " ")[:160], checks))
 with open(os.path.join(S, "README.md"), "w") as f:
